@@ -161,4 +161,8 @@ def run(tier, seed):
         rule="as above, bound not look-ahead-safe: no host call may happen from inside a string or choice text",
         ex_kw=dict(depth=3, max_paths=8),
         case_kw=dict(cmp=[], cmpall=["can"], cmpcb=False, cmpsave=False, cmpres=False, cmpval=False, chk12="never"))
+    # the calls the host receives, continue by continue, against the executable model (absolute oracle: function,
+    # arguments, order and - for functions not safe in look-ahead - never before the preceding line was delivered)
+    import hostmodel
+    nviol += hostmodel.check("C12", "externs", tier, seed)
     return nviol
